@@ -1,2 +1,3 @@
 import LJT.Props.C19
+import LJT.Props.C20
 import LJT.Ops.C19
